@@ -113,6 +113,10 @@ fn main() {
                     let (tests, distinct) = drivers::pure::zigzag(&mut tr, seed, get("near", 8) as u32, get("pow", 5) as u32, get("part", 0) as usize);
                     extra = format!(",\"tests\":{},\"distinct\":{}", tests, distinct);
                 }
+                "zigzag32" => {
+                    let (tests, distinct) = drivers::pure::zigzag_sweep32(&mut tr);
+                    extra = format!(",\"tests\":{},\"distinct\":{}", tests, distinct);
+                }
                 "vbyteio" => {
                     let (tests, distinct) = drivers::pure::vbyteio(&mut tr, seed, get("dense", 12) as u32, get("maxlen", 2) as usize, get("sample", 2000) as usize);
                     extra = format!(",\"tests\":{},\"distinct\":{}", tests, distinct);
